@@ -95,6 +95,17 @@ CHECKS = {
              "the tracker's normalisation is compared with a plain-Python reference on the network and the cache-file path.",
         note="Domain = what the template's own serialize emits plus byte mutations of it; a mutated payload is judged only if the template decodes it and re-encodes "
              "it to itself; PCodes outside the enum are counted, not asserted; enums by value, dataclasses by fields, lazy proxies forced, floats bit-exact."),
+    "C18": dict(
+        category="model_checking", design_ref="DESIGN.md §4 C18",
+        technique="explicit-state BFS over the real FilteringMessageLogger plus bounded-exhaustive enumeration of filter expression trees, leaf comparisons and export/import cases",
+        text="BFS over the real FilteringMessageLogger (ring buffer 2 and 3; alphabet log LLUDP/EQ/HTTP, four filters incl. match-nothing and type-inapplicable, pause, "
+             "resume, clear; depth 5 quick / 7 thorough) checks after every operation that the view equals the retained entries matching the current filter, in "
+             "arrival order, no duplicates. Around it: every depth<=2 expression tree and every unparenthesised chain up to length 4 over 7 leaf filters x 11 "
+             "entries x both short-circuit modes (root vs children vs denotation); every operator x literal kind x selector shape x 12 entries against a plain "
+             "type-table reference, also through add_log_entry/set_filter; freeze/thaw and export/import of one message per template plus EQ and HTTP entries.",
+        note="Chains follow the grammar as written (right-nested, no precedence, ! binds to the next term); a bare selector means presence/truthiness; the verdict is "
+             "not pinned (only 'no exception') for a few str/bytes operand mixes listed in the harness; 'retained' = ring buffer plus entries that aged out while "
+             "visible and matched every later filter; fnmatch, the C01 codec, hmc.msggen and mitmproxy test flows (uuid4/time pinned) trusted."),
 }
 
 PENDING_REASON = "check not built yet (build in progress; will be claimed once its harness exists)"
